@@ -1001,7 +1001,7 @@ class PEval:
                             local, path = cand, cand["path"]
                             break
         if local is None and args and path.startswith("core::iter::traits::iterator::Iterator::") and isinstance(deref(args[0]), Struct) \
-                and not deref(args[0]).adt.startswith("#") and fname in ("find", "find_map", "position", "nth", "take", "any", "all", "skip", "last", "count") is not None:
+                and not deref(args[0]).adt.startswith("#") and fname in ("find", "find_map", "position", "nth", "take"):
             # a provided Iterator method on a LOCAL iterator type: driven through that type's own `next`
             recv_ = deref(args[0])
             nxt_ = self._local_next(recv_.adt)
@@ -1403,6 +1403,11 @@ class PEval:
                 i_ += 1
                 if i_ - a0.fields["start"] > 5000:
                     raise OutOfFuel()
+        if isinstance(a0, Struct) and a0.adt in ("core::ops::range::Range", "core::ops::range::RangeInclusive") and fname == "contains" and len(args) == 2 \
+                and all(isinstance(v_, (int, float)) and not isinstance(v_, bool) for v_ in (a0.fields.get("start"), a0.fields.get("end"), args[1])) \
+                and any(isinstance(v_, float) for v_ in (a0.fields.get("start"), a0.fields.get("end"), args[1])):
+            lo_, hi_, x_ = float(a0.fields["start"]), float(a0.fields["end"]), float(args[1])
+            return lo_ <= x_ <= hi_ if a0.adt.endswith("Inclusive") else lo_ <= x_ < hi_
         if isinstance(a0, Struct) and a0.adt.startswith("core::ops::range::Range") and isinstance(a0.fields.get("start"), int) and isinstance(a0.fields.get("end"), int):
             rng = list(range(a0.fields["start"], a0.fields["end"]))
             if fname in ITER_CALLS or fname in ("rev", "map", "for_each", "filter", "any", "all", "fold", "collect", "count", "len", "next", "is_empty", "contains"):
